@@ -81,6 +81,16 @@ def run_schedule(kspec: Any, arrivals: tuple[tuple[float, str, str], ...], perio
     dbg = isinstance(kspec, str) and kspec.startswith("debug:")
     if dbg:
         kspec = float(kspec[6:])  # the same schedule with debug logging requested on the connection
+    slow = 0.0
+    if isinstance(kspec, str) and kspec.startswith("slow:"):
+        # a device that takes slow*K to answer the hello: "established" is when the connect phase completed, not when it began
+        _, sl, kk = kspec.split(":")
+        slow, kspec = float(sl), float(kk)
+    reqdue = isinstance(kspec, str) and kspec.startswith("reqdue:")
+    if reqdue:
+        # the pending request's own timeout expires a hair before the first pong deadline and the loop, briefly blocked, runs both
+        # timers in one iteration: the request has just been failed (its task has not resumed yet) when the connection is declared dead
+        kspec = float(kspec[7:])
     w = ConnWorld(client=default, keepalive=None if default else float(kspec), debug=dbg)
     try:
         stops: list[tuple[float, bool]] = []
@@ -98,6 +108,18 @@ def run_schedule(kspec: Any, arrivals: tuple[tuple[float, str, str], ...], perio
                 raise HarnessError(f"connect failed {w.results}")
             conn = w.client._connection
             k = 20.0 if not hasattr(w.client, "_params") else float(w.client._params.keepalive)
+        elif slow:
+            k = float(kspec)
+            w.do_start()
+            w.do_tcp_ok()
+            w.do_finish_call()
+            w.loop.advance_to(w.loop.time() + slow * k)
+            w.drain()
+            w.do_handshake()
+            w.do_hello()
+            if w.outcome("finish") != "ok":
+                raise HarnessError(f"slow connect failed {w.results}")
+            conn = w.conn
         else:
             w.connect_fully()
             conn = w.conn
@@ -109,7 +131,8 @@ def run_schedule(kspec: Any, arrivals: tuple[tuple[float, str, str], ...], perio
         # a pending request observes the error class of the close; its own timer is far beyond the horizon
         req = mk("DeviceInfoRequest")
         rtype = getattr(env.pb(), "DeviceInfoResponse")
-        w.spawn("req", lambda: conn.send_message_await_response(req, rtype, 1e5))
+        req_timeout = (1.0 + RATIO) * k - 1e-4 * k if reqdue else 1e5
+        w.spawn("req", lambda: conn.send_message_await_response(req, rtype, req_timeout))
         n_before = len(sock.sent)
         ref = Ref(t0, k)
         horizon = t0 + periods * k
@@ -149,9 +172,18 @@ def run_schedule(kspec: Any, arrivals: tuple[tuple[float, str, str], ...], perio
                 if d is not None and nt + d * k < room - 1e-6:
                     actual = nt + d * k  # no other timer or arrival falls into the blocked stretch
                     was_late = True
-                w.loop.advance_to(actual)
-                w.drain()
-                ref.on_timer(actual, nt)
+                if reqdue and others and others[0] - nt < 2e-4 * k and others[0] < na:
+                    # the loop is blocked for a hair: this timer and the next one are both due when it looks at the clock again
+                    actual = others[0]
+                    w.loop.advance_to(actual)
+                    w.drain()
+                    ref.on_timer(actual, nt)
+                    ref.on_timer(actual, others[0])
+                    timer_no += 1
+                else:
+                    w.loop.advance_to(actual)
+                    w.drain()
+                    ref.on_timer(actual, nt)
             else:
                 slot, kind, order = queue.pop(0)
                 w.loop.advance_to(nt)
@@ -190,7 +222,7 @@ def run_schedule(kspec: Any, arrivals: tuple[tuple[float, str, str], ...], perio
             viol.append(f"C10:dead-time:closed at {closed_at - t0}, reference {ref.dead_at - t0}")  # type: ignore[operator]
         if closed_at is not None and not viol:
             out = w.outcome("req")
-            if out != "exc:PingFailedAPIError":
+            if out != "exc:PingFailedAPIError" and not (reqdue and out == "exc:TimeoutAPIError"):
                 viol.append(f"C10:cause:pending request ended {out}, expected PingFailedAPIError")
             st = stops if default else [(t, e) for t, e, _ in w.stops]
             if [e for _, e in st] != [False]:
@@ -263,6 +295,10 @@ def run(tier: str, seed: int) -> Result:
         else:
             jobs += schedules(k, 1, KINDS, ())
     jobs += schedules("debug:2.0", 2 if q else 3, KINDS, ("PRESP", "UK"))
+    for sl in (0.3, 0.45, 1.25):
+        jobs += schedules(f"slow:{sl}:2.0", 1 if q else 2, KINDS, ("PRESP", "UK"))
+    for kk in (1.0, 2.0):
+        jobs += schedules(f"reqdue:{kk}", 1 if q else 2, KINDS, ("PRESP", "UK"))
     # a loop that was blocked: the n-th timer runs late by a fraction of K; everything is measured from when it actually ran
     for k in (1.0, 4.0):
         for n in range(0, 9):
@@ -303,6 +339,7 @@ def run(tier: str, seed: int) -> Result:
             clause = o["viol"][0]
             kind = ":".join(clause.split(":")[:2])
             res.add(f"K={a[0]}:{kind}:{a[1]}", clause, {"harness": "c10", "k": a[0], "arrivals": [list(x) for x in a[1]],
+                                                         "periods": a[2] if len(a) > 2 else PERIODS, "late": [list(x) for x in a[3]] if len(a) > 3 else [],
                                                          "violated": o["viol"], "observed": o["obs"]})
     if not res.violations and (dead < 50 or alive < 50 or len(distinct) < 100):
         raise HarnessError(f"vacuous: dead={dead} alive={alive} distinct={len(distinct)}")
@@ -332,8 +369,10 @@ def run(tier: str, seed: int) -> Result:
 def replay(rp: dict[str, Any]) -> bool:
     d = rp["detail"]
     k = d["k"]
-    if k != "default":
+    try:
         k = float(k)
-    o = run_schedule(k, tuple(tuple(x) for x in d["arrivals"]))
+    except ValueError:
+        pass  # "default", "debug:<K>", "slow:<d>:<K>", "reqdue:<K>"
+    o = run_schedule(k, tuple(tuple(x) for x in d["arrivals"]), int(d.get("periods", PERIODS)), tuple(tuple(x) for x in d.get("late", [])))
     print(o)
     return not o["viol"]
